@@ -1247,6 +1247,32 @@ def position_directed_cases():
     for sn in POS_SNIPPETS:
         for pre in ("package p\n", "package 日本語\n// é日本語 \U0001F600\nvar x = \"é日本\" /* \U0001F600 */\n\t", "package p\r\n\r\n\t"):
             out.append(Case(pre + sn + "\n", "F-pos-directed"))
+    return out + bom_cases()
+
+
+def bom_cases():
+    """U+FEFF in an in-memory source: the byte order mark is a matter of the disk entry point only; a string handed to
+    parse_source / Parser::from is scanned as it is, so every offset, line and column counts the mark as a character
+    (first missed: seeded change C05-g strips it in Scanner::from and reports positions of the stripped copy)"""
+    out = []
+    bodies = ["package p", "package p\n\nvar x = 1\n", "// c é\npackage 日本語\n\nfunc f(a int) (r int) {\n\treturn a /* d */ + 1\n}\n",
+              "package p\r\n\r\nvar s = `a\r\nb`\r\n", "package p\n\nvar x = )\n", "package p; var x = 1 2", "package", "x +"]
+    for b in bodies:
+        out.append(Case("\ufeff" + b, "F-bom-in-memory"))
+        out.append(Case("\ufeff\ufeff" + b, "F-bom-in-memory"))
+        out.append(Case(b.replace("\n", "\n\ufeff", 1) if "\n" in b else b + "\ufeff", "F-bom-in-memory"))
+    return out
+
+
+def multiline_token_then(rest):
+    """`rest` on the line on which a multi-line raw string / general comment closes, LF and CRLF, ASCII and multi-byte
+    (first missed: seeded change C16-g drops CRs from the raw string text the line table is computed from)"""
+    out = []
+    for nl in ("\n", "\r\n"):
+        r = rest.replace("\n", nl)
+        for head in ("var s = `a%sb%sc`; ", "var s = `é%s日本%s` ; ", "/* a%sb%sc */ ", "var s = `%s%s`; var t = `x%sy` ; "):
+            h = head.replace("%s", nl)
+            out.append("package p" + nl + nl + h + r)
     return out
 
 
